@@ -17,7 +17,7 @@ type CLIResult struct {
 }
 
 type CLIOpts struct {
-	Config string // contents of config.ini
+	Config string        // contents of config.ini
 	Script []gotime.Time // successive clock readings (overrides Now)
 	Now    gotime.Time
 	Cpus   int
